@@ -4,6 +4,7 @@ package live
 
 import (
 	"fmt"
+	"gitlab.com/gomidi/midi/v2/zverif/noise"
 	"math"
 	"time"
 
@@ -20,6 +21,9 @@ import (
 type Chunk struct {
 	Data  hx.B
 	Delta int32
+	// Reopen: before this chunk is sent, the sender closes its out-port and opens it again (only
+	// set where a message starts; entry points without ports ignore it)
+	Reopen bool `json:",omitempty"`
 }
 
 // Obs is one callback invocation.
@@ -78,7 +82,10 @@ func RunRaw(chunks []Chunk, o Opts) (obs []Obs, failed string) {
 				rd.SysExBufferSize = 1024 // the documented default
 			}
 		}
-		for _, c := range chunks {
+		for i, c := range chunks {
+			if i == 0 {
+				noise.Between()
+			}
 			rd.EachMessage(c.Data, c.Delta)
 		}
 	})
@@ -179,8 +186,17 @@ func (l *Loop) Run(chunks []Chunk, o Opts) (obs []Obs, failed string) {
 			panic(fmt.Sprintf("sync message not delivered as expected: %v", all))
 		}
 		base := all[0].TS
+		noise.Between() // other listeners and decoders come into being while this one is active
 		for _, c := range chunks {
 			drv.Sleep(time.Duration(c.Delta) * time.Millisecond)
+			if c.Reopen {
+				// the sender closes its port and opens it again between two messages; the
+				// listener, its clock and the wire stay what they are
+				out.Close()
+				if err := out.Open(); err != nil {
+					panic(fmt.Sprintf("out.Open after Close: %v", err))
+				}
+			}
 			if err := out.Send(c.Data); err != nil {
 				panic(fmt.Sprintf("Send: %v", err))
 			}
@@ -237,10 +253,10 @@ func chunking(t *rapid.T, stream []byte, maxDelta int32) []Chunk {
 	}
 	switch mode {
 	case 0: // one call
-		return []Chunk{{append([]byte{}, stream...), delta()}}
+		return []Chunk{{Data: append([]byte{}, stream...), Delta: delta()}}
 	case 1: // one byte per call
 		for _, b := range stream {
-			out = append(out, Chunk{[]byte{b}, delta()})
+			out = append(out, Chunk{Data: []byte{b}, Delta: delta()})
 		}
 		return out
 	case 4: // the way a sender works: one call per message (a chunk starts at a status byte that
@@ -248,7 +264,12 @@ func chunking(t *rapid.T, stream []byte, maxDelta int32) []Chunk {
 		start := 0
 		flush := func(end int) {
 			if end > start {
-				out = append(out, Chunk{append([]byte{}, stream[start:end]...), delta()})
+				ch := Chunk{Data: append([]byte{}, stream[start:end]...), Delta: delta()}
+				// chunks begin where a message begins: now and then the sender reconnects there
+				if len(out) > 0 && ch.Data[0] >= 0x80 && ch.Data[0] < 0xF8 && ch.Data[0] != 0xF7 {
+					ch.Reopen = rapid.IntRange(0, 7).Draw(t, "senderReconnects?") == 0
+				}
+				out = append(out, ch)
 				start = end
 			}
 		}
@@ -269,7 +290,7 @@ func chunking(t *rapid.T, stream []byte, maxDelta int32) []Chunk {
 		if pos+n > len(stream) {
 			n = len(stream) - pos
 		}
-		out = append(out, Chunk{append([]byte{}, stream[pos:pos+n]...), delta()})
+		out = append(out, Chunk{Data: append([]byte{}, stream[pos:pos+n]...), Delta: delta()})
 		pos += n
 	}
 	return out
@@ -280,18 +301,18 @@ func chunking(t *rapid.T, stream []byte, maxDelta int32) []Chunk {
 func Rechunk(stream []byte, mode int) []Chunk {
 	switch {
 	case mode == 0:
-		return []Chunk{{append([]byte{}, stream...), 1}}
+		return []Chunk{{Data: append([]byte{}, stream...), Delta: 1}}
 	case mode == 1:
 		out := make([]Chunk, 0, len(stream))
 		for _, b := range stream {
-			out = append(out, Chunk{[]byte{b}, 1})
+			out = append(out, Chunk{Data: []byte{b}, Delta: 1})
 		}
 		return out
 	}
 	var out []Chunk
 	for pos := 0; pos < len(stream); pos += mode {
 		end := min(pos+mode, len(stream))
-		out = append(out, Chunk{append([]byte{}, stream[pos:end]...), 1})
+		out = append(out, Chunk{Data: append([]byte{}, stream[pos:end]...), Delta: 1})
 	}
 	return out
 }
